@@ -40,7 +40,8 @@ Proof.
   induction sc as [|a r IH]; intros w H; cbn [exec fst]; [reflexivity|].
   destruct a; cbn [no_err_chunk] in H.
   - apply IH; assumption.
-  - rewrite IH by assumption. unfold rw_write_header, origin_write_header. destruct (wire_hdr w); reflexivity.
+  - destruct (origin_rejects code w); [reflexivity|].
+    rewrite IH by assumption. unfold rw_write_header, origin_write_header. destruct (wire_hdr w); reflexivity.
   - apply andb_prop in H. destruct H as [H1 H2]. rewrite IH by assumption.
     rewrite wbody_write, memN_app. cbn [memN]. apply negb_true_iff in H1.
     rewrite N.eqb_sym, H1. rewrite !orb_false_r. reflexivity.
@@ -53,7 +54,8 @@ Proof.
   induction sc as [|a r IH]; intros w c H; cbn [exec fst]; [assumption|].
   destruct a.
   - apply IH; assumption.
-  - apply IH. unfold rw_write_header, origin_write_header. rewrite H. cbn. assumption.
+  - unfold origin_rejects, started. rewrite H. cbn [negb andb].
+    apply IH. unfold rw_write_header, origin_write_header. rewrite H. cbn. assumption.
   - apply IH. destruct w as [st wh wb]. cbn [wire_hdr] in H. subst wh.
     unfold rw_write, origin_write, origin_write_header, rw_write_header.
     cbn [status wire_hdr wbody]. destruct (st =? 0); reflexivity.
@@ -69,6 +71,7 @@ Proof.
   - destruct a.
     + apply (IH w); assumption.
     + destruct (500 =? code) eqn:E; [reflexivity|]. cbn [orb].
+      destruct (origin_rejects code w); [cbn [fst] in H; congruence|].
       rewrite (exec_wire_stable r (rw_write_header code w) code) in H.
       * injection H as H. subst code. rewrite N.eqb_refl in E. discriminate.
       * destruct w as [st wh wb]. cbn [wire_hdr] in Hw. subst wh. reflexivity.
